@@ -51,6 +51,8 @@ MonInit ==
     slowenv |-> FALSE,   \* a scenario with a real (wall-clock) request timeout ran on a machine too slow for its timing to mean anything
     topoSeen |-> FALSE,  \* the scenario changes the cluster's description (the slot table is then not the static one)
     nres |-> <<>>,       \* fragment -> how often it has arrived at a node again (re-sent after a redirect)
+    half |-> <<>>,       \* conn -> kind of the reply of which the node has sent only the first part so far
+    nclosed |-> {},      \* connections that their node closed
     npaused |-> {},      \* nodes that are not reading at the moment
     envbad |-> FALSE,    \* the machine, not the proxy, disturbed the scenario (a connect timed out, bytes took seconds to arrive): its outcome says nothing about segmentation
     role |-> "", base |-> [nlog |-> <<>>, got |-> <<>>, cst |-> <<>>], baseok |-> TRUE ]   \* C08: outcome of the unsegmented twin
@@ -326,18 +328,27 @@ MonApply(m, e) ==
                             !.big = IF e.size > 4000 THEN @ \cup {f} ELSE @,
                             !.dirty = @ \cup {e.conn}]
     [] e.ev = "answerauto" /\ e.kind = "late" -> [m EXCEPT !.late = @ \cup {e.conn}]
-    [] e.ev \in {"answerhead", "answerauto"} -> [m EXCEPT !.dirty = @ \cup {e.conn}]
+    [] e.ev = "answerhead" -> [m EXCEPT !.dirty = @ \cup {e.conn}, !.half = Put(@, e.conn, e.kind)]
+    [] e.ev = "answerrest" -> [m EXCEPT !.half = Put(@, e.conn, "")]
+    [] e.ev = "answerauto" -> [m EXCEPT !.dirty = @ \cup {e.conn}]
     [] e.ev = "bclose" ->
          \* the node dropped the connection: what it had not answered dies with it
          LET dying == SeqRange(At(m.pend, e.conn, <<>>)) IN
          [m EXCEPT !.pend = Put(@, e.conn, <<>>),
                    !.lost = @ \cup dying,
                    !.lostp = Put(@, e.conn, At(m.lostp, e.conn, {}) \cup dying),
+                   !.nclosed = @ \cup {e.conn},
                    !.connLost = TRUE]
     [] e.ev = "sclose" ->
          \* the proxy closed (or noticed the close of) a backend connection
-         LET dying == SeqRange(At(m.pend, e.conn, <<>>)) \cup At(m.lostp, e.conn, {}) IN
-         [m EXCEPT !.pend = Put(@, e.conn, <<>>),
+         LET dying == SeqRange(At(m.pend, e.conn, <<>>)) \cup At(m.lostp, e.conn, {})
+             \* a reply whose first part has arrived is not a reason to drop the connection: the proxy waits for the rest
+             \* (unless the topology changed, the node closed first, or what arrived was not a valid beginning: raw replies)
+             hk == At(m.half, e.conn, "")
+             v == IF hk \notin {"", "raw"} /\ e.conn \notin m.nclosed /\ ~m.topoSeen /\ ~m.envbad
+                  THEN {<<IF hk = "err" THEN "C11" ELSE "C02", "", 0, "connection-to-node-dropped-in-the-middle-of-a-reply">>} ELSE {}
+         IN
+         [m EXCEPT !.viol = @ \cup v, !.pend = Put(@, e.conn, <<>>),
                    !.lost = @ \cup dying,
                    !.noticed = @ \cup dying,
                    !.lostp = Put(@, e.conn, {}),
